@@ -5,8 +5,10 @@ import GrafeoModel.Model.Lpg
 
 `crates/grafeo-core/src/graph/lpg/store.rs` (non-tiered build, store epoch 0) and
 `index/adjacency.rs` (`ChunkedAdjacency`: per node a list of `(other, edge)` entries plus a set
-of deleted edge ids; `mark_deleted` on a node without a list does nothing; readers filter the
-entries by the set). One step of a thread = the code between two yield points:
+of deleted edge ids; readers filter the
+entries by the set). `mark_deleted` is the repaired one (`fix:` af85f62: the tombstone is kept even
+when the node has no list yet); the pinned behaviour is `Old.adjMark` / `Old.runSched` at the end of
+this file. One step of a thread = the code between two yield points:
 
   create_edge(src, dst)  alloc     `next_edge_id.fetch_add`, edge type id                ↦ `idle → crEdges`
                          `edges.write()` insert                                          ↦ `crEdges`   (takes effect)
@@ -52,11 +54,10 @@ def adjAdd (a : AList Adj) (k other e : Nat) : AList Adj :=
   let l := (aget a k).getD {}
   aset a k { l with entries := l.entries ++ [(other, e)] }
 
-/-- `ChunkedAdjacency::mark_deleted`: only when the node has a list -/
+/-- `ChunkedAdjacency::mark_deleted` (repaired): `entry(src).or_insert_with(new)`, set insert -/
 def adjMark (a : AList Adj) (k e : Nat) : AList Adj :=
-  match aget a k with
-  | none => a
-  | some l => aset a k { l with deleted := if l.deleted.contains e then l.deleted else e :: l.deleted }
+  let l := (aget a k).getD {}
+  aset a k { l with deleted := if l.deleted.contains e then l.deleted else e :: l.deleted }
 
 /-- `ChunkedAdjacency::edges_from` -/
 def adjLive (a : AList Adj) (k : Nat) : List (Nat × Nat) :=
@@ -178,14 +179,18 @@ def seqDelNode (s : Store) (n : Nat) : Store × Nat :=
   | some true => ({ s with nodes := aset s.nodes n false }, 1)
   | _ => (s, 0)
 
+/-- one call of the linearisation, in one piece -/
+def rstep (s : Store) (ev : Ev) : Store × Nat :=
+  match ev.op with
+  | .create src dst => (seqCreate s ev.out src dst, ev.out)
+  | .delEdge e => seqDelEdge s e
+  | .delNode n => seqDelNode s n
+
 /-- replay of a linearisation; the answers it gives -/
 def replay (s : Store) : List Ev → Store × List Nat
   | [] => (s, [])
   | ev :: rest =>
-    let r : Store × Nat := match ev.op with
-      | .create src dst => (seqCreate s ev.out src dst, ev.out)
-      | .delEdge e => seqDelEdge s e
-      | .delNode n => seqDelNode s n
+    let r := rstep s ev
     let q := replay r.1 rest
     (q.1, r.2 :: q.2)
 
@@ -220,5 +225,58 @@ def view (s : Store) (nNodes : Nat) : View :=
     fwd := (List.range nNodes).map (fun n => (n, adjLive s.fwd n)),
     bwd := (List.range nNodes).map (fun n => (n, adjLive s.bwd n)),
     nodes := (List.range nNodes).filter (fun n => aget s.nodes n == some true) }
+
+/-! ### the pinned code (before `fix:` af85f62): `mark_deleted` did nothing on a node without a list -/
+namespace Old
+
+def adjMark (a : AList Adj) (k e : Nat) : AList Adj :=
+  match aget a k with
+  | none => a
+  | some l => aset a k { l with deleted := if l.deleted.contains e then l.deleted else e :: l.deleted }
+
+def stepThread (i : Nat) (s : Store) (log : List Ev) (t : Thread) : Store × List Ev × Thread :=
+  match t.pc with
+  | .deFwd e src dst => ({ s with fwd := adjMark s.fwd src e }, log, { t with pc := .deBwd e dst })
+  | .deBwd e dst => ({ s with bwd := adjMark s.bwd dst e }, log, { t with pc := .deProps })
+  | _ => EdgeConc.stepThread i s log t
+
+def step (st : State) (i : Nat) : State :=
+  match st.threads[i]? with
+  | none => st
+  | some t =>
+    let r := stepThread i st.store st.log t
+    { store := r.1, log := r.2.1, threads := st.threads.set i r.2.2 }
+
+def runSched (st : State) (sched : List Nat) : State := sched.foldl step st
+
+def finishThread : Nat → State → Nat → State
+  | 0, st, _ => st
+  | fuel + 1, st, i =>
+    match st.threads[i]? with
+    | none => st
+    | some t => if t.finished then st else finishThread fuel (step st i) i
+
+def finishAll (fuel : Nat) (st : State) : State :=
+  (List.range st.threads.length).foldl (finishThread fuel) st
+
+def seqDelEdge (s : Store) (e : Nat) : Store × Nat :=
+  match aget s.edges e with
+  | none => (s, 0)
+  | some r =>
+    if r.deleted then (s, 0)
+    else ({ s with edges := aset s.edges e { r with deleted := true },
+                   fwd := adjMark s.fwd r.src e, bwd := adjMark s.bwd r.dst e }, 1)
+
+def replay (s : Store) : List Ev → Store × List Nat
+  | [] => (s, [])
+  | ev :: rest =>
+    let r : Store × Nat := match ev.op with
+      | .create src dst => (seqCreate s ev.out src dst, ev.out)
+      | .delEdge e => seqDelEdge s e
+      | .delNode n => seqDelNode s n
+    let q := replay r.1 rest
+    (q.1, r.2 :: q.2)
+
+end Old
 
 end Grafeo.EdgeConc
